@@ -25,6 +25,8 @@ SUPPORTED = {
     "nasim.envs.network.Network.has_required_remote_permission": "net_hrp",
     "nasim.envs.network.Network.traffic_permitted": "net_tp",
     "nasim.envs.network.Network.all_sensitive_hosts_compromised": "net_goal",
+    "nasim.envs.state.State.get_observation": "state_get_observation",
+    "nasim.envs.host_vector.HostVector.observe": "hv_observe",
 }
 
 
@@ -113,6 +115,32 @@ def random_input(rng, harness, variant, cfg):
         rep["vector"] = random_row(rng, sc, rng.randrange(len(sc["addrs"])))
         rep["action"] = random_action(rng, sc, variant)
         return rep
+    if harness == "hv_observe":
+        rep["vector"] = random_row(rng, sc, rng.randrange(len(sc["addrs"])))
+        names = ["address", "compromised", "reachable", "discovered", "access", "value", "discovery_value", "services",
+                 "processes", "os"]
+        rep["switches"] = {k: rng.random() < 0.5 for k in names}
+        rep["switches"]["services"] = variant[2] == "1"
+        rep["switches"]["processes"] = variant[3] == "1"
+        return rep
+    if harness == "state_get_observation":
+        rep["tensor"] = [random_row(rng, sc, i) for i in range(len(sc["addrs"]))]
+        rep["action"] = random_action(rng, sc, variant)
+        rep["fully_obs"] = rng.random() < 0.3
+        succ = rng.random() < 0.7
+        flags = [False, False, False]
+        if not succ and rng.random() < 0.8:
+            flags[rng.randrange(3)] = True
+        res = {"success": succ, "value": rng.choice([0.0, 1.0, 5.0]), "connection_error": flags[0],
+               "permission_error": flags[1], "undefined_error": flags[2], "access": float(rng.choice([0, 1, 2])),
+               "discovered": {}, "newly_discovered": {}}
+        if variant == "SubnetScan":
+            for a in sc["addrs"]:
+                d = rng.random() < 0.6
+                res["discovered"][f"{a[0]},{a[1]}"] = d
+                res["newly_discovered"][f"{a[0]},{a[1]}"] = d and rng.random() < 0.5
+        rep["result"] = res
+        return rep
     rep["tensor"] = [random_row(rng, sc, i) for i in range(len(sc["addrs"]))]
     if variant in kinds:
         rep["action"] = random_action(rng, sc, variant)
@@ -200,6 +228,17 @@ def lift_result(I, S, harness, rep, actual):
             f[k] = AbsVal(EMPTY_DICT, "dict")
         f["access"] = 0.0
         return Obj(arcls, f, fresh=True)
+    if harness == "hv_observe":
+        c = NpCell(_arr1(z3.K(z3.IntSort(), z3.RealVal(0)), actual["obs_vector"]), (L.W,), dtype="float32", fresh=True)
+        return NpArr(c)
+    if harness == "state_get_observation":
+        obscls = I.repo.cls("nasim.envs.observation.Observation")
+        N1 = len(rep["tensor"]) + 1
+        base = z3.K(z3.IntSort(), z3.K(z3.IntSort(), z3.RealVal(0)))
+        oc = NpCell(_arr2(base, actual["obs_tensor"]), (N1, L.W), dtype=actual.get("obs_dtype", "float32"), fresh=True)
+        from pyvc.values import mk
+        return Obj(obscls, {"obs_shape": (N1, mk(L.W, "int") if z3.is_expr(L.W) else L.W), "aux_row": N1 - 1, "tensor": NpArr(oc)},
+                   fresh=True)
     if harness == "hv_perform_action":
         cell0 = S.old["cell"]
         cell0.content = _arr1(S.old["vec"], actual["input_vector_after"])
@@ -262,6 +301,23 @@ def evaluate(repo, c, variant, cfg, harness, rep, actual):
     if "vec" in S.old and "vector" in rep:
         for col, v in enumerate(rep["vector"]):
             facts.append(z3.Select(S.old["vec"], z3.IntVal(col)) == z3.RealVal(repr(float(v))))
+    if harness == "hv_observe":
+        for k, v in rep["switches"].items():
+            t = S.extra["sw"][k]
+            if not z3.is_true(t) and not z3.is_false(t):
+                facts.append(t == bool(v))
+    if harness == "state_get_observation":
+        r = rep["result"]
+        rv = lambda x: z3.RealVal(repr(float(x)))
+        facts += [z3.Bool("r_success") == r["success"], z3.Bool("r_conn") == r["connection_error"],
+                  z3.Bool("r_perm") == r["permission_error"], z3.Bool("r_undef") == r["undefined_error"],
+                  z3.Real("r_value") == rv(r["value"]), z3.Real("r_access") == rv(r.get("access", 0.0)),
+                  z3.Bool("fully_obs") == bool(rep["fully_obs"])]
+        for i, a in enumerate(rep["scenario"]["addrs"]):
+            k = f"{a[0]},{a[1]}"
+            if k in r.get("discovered", {}):
+                facts.append(S.extra["dis"](z3.IntVal(i)) == bool(r["discovered"][k]))
+                facts.append(S.extra["new"](z3.IntVal(i)) == bool(r["newly_discovered"][k]))
     if harness == "net_update_reachable":
         ad = S.a["compromised_addr"]
         from pyvc.values import ival
